@@ -230,7 +230,7 @@ def run_property(pid, tier, only=None, jobs=16, seed=0, budget_s=None):
         rs = roots_of(h, tier)
         agg[h.name]["roots"] = len(rs)
         for case in rs:
-            queue.append((h.name, case, [[]], 12, 10.0, h.witness_cap, seed))
+            queue.append((h.name, case, [[]], 3, 5.0, h.witness_cap, seed))
     ctx = mp.get_context("fork")
     pool = ctx.Pool(jobs)
     pending = []
@@ -268,7 +268,7 @@ def run_property(pid, tier, only=None, jobs=16, seed=0, budget_s=None):
                     nchunks = min(len(left), max(1, jobs))
                     for i in range(nchunks):
                         chunk = left[i::nchunks]
-                        queue.append((r["harness"], r["case"], chunk, 400, 30.0, 2, seed))
+                        queue.append((r["harness"], r["case"], chunk, 400, 6.0, 2, seed))
     finally:
         pool.terminate()
         pool.join()
@@ -301,7 +301,7 @@ def finish(pid, tier, seed, harnesses, agg, funcs, wall, timed_out, kf):
         # vacuity: at least one path, every assert site of the harness reached
         if st.get("paths", 0) == 0 and not a["errors"]:
             inconclusive.append(f"{h.name}: vacuous (no feasible path)")
-        asserts = [s for s in a["sites"] if s.startswith("L")]
+        asserts = [s for s in a["sites"] if s.startswith("L") or s.startswith("cover:")]
         if not asserts and not a["errors"] and not any(s.startswith("escaped") for s in a["sites"]):
             inconclusive.append(f"{h.name}: vacuous (no assertion reached)")
         seen = set()
